@@ -63,6 +63,7 @@ type ExternFn struct {
 	Lean        string `json:"lean"`
 	MutatesRecv bool   `json:"mutatesRecv"`
 	Pure        bool   `json:"pure"` // returns a plain value, not a Res
+	UsesRand    bool   `json:"usesRand"` // takes the random source first and returns it first
 }
 
 type translator struct {
@@ -276,6 +277,10 @@ func (t *translator) leanType(ty types.Type) (string, error) {
 			return "Go.Mac", nil
 		case "math/big.Int":
 			return "Nat", nil
+		case "crypto/cipher.Block":
+			return "Bytes", nil
+		case "crypto/cipher.BlockMode":
+			return "Go.Cbc", nil
 		}
 		if l, ok := t.extern.Types[key]; ok && (l == "" || obj.Pkg().Path() != t.curPkg) {
 			if l == "" {
@@ -390,6 +395,9 @@ func (t *translator) zero(ty types.Type) (string, error) {
 		}
 		if lt == "Nat" {
 			return "(0 : Nat)", nil
+		}
+		if lt == "Go.Cbc" {
+			return "({} : Go.Cbc)", nil
 		}
 		if _, ok := ty.Underlying().(*types.Interface); ok {
 			return "(" + lt + ".nil_)", nil
